@@ -621,14 +621,48 @@ func checkLenLimit(r *Report, f *ssa.Function, cmp *ssa.BinOp, mapField, limit s
 				if RetErrKind(ret) != "nil" {
 					continue
 				}
-				if ReachesWithout(f, ret, func(x ssa.Instruction) bool {
-					mu, ok := x.(*ssa.MapUpdate)
-					if !ok {
-						return false
+				// a success that found the member already in the table admits nobody
+				present := false
+				for _, ft := range Facts(ret.Block()) {
+					if ex, isE := ft.Cond.(*ssa.Extract); isE && ft.Pol && ex.Index == 1 {
+						if lk, isL := ex.Tuple.(*ssa.Lookup); isL {
+							if _, fld, _, ok := FieldOf(lk.X); ok && fld == mapField {
+								present = true
+							}
+						}
 					}
-					_, fld, _, ok := FieldOf(mu.Map)
-					return ok && fld == mapField
-				}) {
+				}
+				if present {
+					continue
+				}
+				// path search from the entry: stop at an insertion; do not follow the edge on which a lookup
+				// found the member already present (nobody is admitted on it)
+				hits := WalkFrom(f.Blocks[0], nil, func(x ssa.Instruction) int {
+					if x == ssa.Instruction(ret) {
+						return Hit
+					}
+					if mu, ok := x.(*ssa.MapUpdate); ok {
+						if _, fld, _, ok := FieldOf(mu.Map); ok && fld == mapField {
+							return Stop
+						}
+					}
+					return Cont
+				}, func(b *ssa.BasicBlock, succ int) bool {
+					iff, ok := b.Instrs[len(b.Instrs)-1].(*ssa.If)
+					if !ok {
+						return true
+					}
+					c, pol := normCond(iff.Cond, succ == 0)
+					if ex, isE := c.(*ssa.Extract); isE && ex.Index == 1 && pol {
+						if lk, isL := ex.Tuple.(*ssa.Lookup); isL {
+							if _, fld, _, ok := FieldOf(lk.X); ok && fld == mapField {
+								return false
+							}
+						}
+					}
+					return true
+				})
+				if len(hits) > 0 {
 					counted = false
 				}
 			}
